@@ -1,2 +1,3 @@
+@classmethod
 def spec(cls, support, loc, scale):
     return torch.exp(cls.logpdf(support, loc, scale))
